@@ -50,7 +50,7 @@ Definition scalar_ok (s : scalar) (cs : list chan) : bool :=
    - channel identifiers of a template are a set (Python dict/set)                          [nodupb (channels p)]
      (for MappingPT: the channel mapping is injective on the kept channels; for AtomicMultiChannelPT: the
       sub-templates have disjoint channels; both are constructor checks)
-   - table channels / point pulses have at least one entry
+   - table channels / point pulses have at least one entry; a point pulse has at least one channel
    - FunctionPT / ParallelChannelPT coefficient expressions do not mention t (the polynomial is written out in t)
    - SequencePT: all sub-templates define the same channels
    - ForLoopPT: the loop index does not occur in the range (InvalidParameterNameException)
@@ -60,7 +60,7 @@ Fixpoint wf (p : pt) : bool :=
   nodupb (channels p) &&
   match p with
   | Table chs => forallb (fun ch => match snd ch with [] => false | _ => true end) chs
-  | Point _ ents => match ents with [] => false | _ => true end
+  | Point cs ents => match ents, cs with _ :: _, _ :: _ => true | _, _ => false end
   | Const _ _ => true
   | Func _ _ coef => no_t coef
   | Seq ps =>
